@@ -1395,6 +1395,8 @@ func genConfig(r *rand.Rand) config {
 			cfg.Funds = append(cfg.Funds, "0")
 		case 1:
 			cfg.Funds = append(cfg.Funds, fmt.Sprint(1+r.Intn(50)))
+		case 2:
+			cfg.Funds = append(cfg.Funds, fmt.Sprint(100000+r.Intn(400000)))
 		default:
 			cfg.Funds = append(cfg.Funds, fmt.Sprint(100+r.Intn(5000)))
 		}
@@ -1607,6 +1609,14 @@ func (h *hist) genOp(r *rand.Rand, ck *clock, search bool) opSpec {
 			o.Amt = fmt.Sprint(1 + r.Intn(20))
 		case hostile:
 			o.Amt = []string{"0", new(big.Int).Add(bal, big.NewInt(1)).String(), bal.String(), "1"}[r.Intn(4)]
+		case r.Intn(5) == 0 && bal.IsInt64() && bal.Int64() > 300:
+			// amounts around the byte-length boundaries of the pool key's amount field
+			c := []int64{255, 256, 257, 65535, 65536, 65537, 300, 4096}
+			a := c[r.Intn(len(c))]
+			if a > bal.Int64()/2 {
+				a = 255 + r.Int63n(3)
+			}
+			o.Amt = fmt.Sprint(a)
 		default:
 			m := int64(40)
 			if bal.IsInt64() && bal.Int64() < 40 && bal.Int64() > 0 {
